@@ -240,6 +240,11 @@ func (ps *pathSummer) walk(fr *psFrame, b, prev *ssa.BasicBlock, st psState, k f
 		ps.failed = "path budget exhausted"
 		return
 	}
+	// back at the loop header (through a jump or directly from a branch): one iteration has been walked
+	if prev != nil && fr.f == ps.loop.Head.Parent() && b == ps.loop.Head {
+		ps.results = append(ps.results, st)
+		return
+	}
 	// resolve phis
 	env := fr.env
 	if prev != nil {
@@ -479,7 +484,7 @@ func rulePathSum(p *Prog, r *Report) {
 	}
 	sort.Strings(hn)
 	r.Extra("cons_handlers_inlined", hn)
-	ps := &pathSummer{p: p, jr: jr, discard: discard, budget: 20000, handlers: handlers, loop: loop}
+	ps := &pathSummer{p: p, jr: jr, discard: discard, budget: 100000, handlers: handlers, loop: loop}
 	start := loop.Head.Succs[0]
 	if !loop.Blocks[start] {
 		start = loop.Head.Succs[1]
@@ -490,6 +495,7 @@ func rulePathSum(p *Prog, r *Report) {
 		return
 	}
 	r.Extra("cons_paths_enumerated", len(ps.results))
+	r.Extra("cons_walk_steps", 100000-ps.budget)
 	// marker constants
 	mk := func(name string) int64 {
 		if c, ok := sp.Pkg.Scope().Lookup(name).(*types.Const); ok && c.Val().Kind() == constant.Int {
